@@ -85,12 +85,15 @@ class ReplacePlaceholders(Contract):
     id = "C17.SigmaString.replace_placeholders"
     target = "sigma.types:SigmaString.replace_placeholders"
     props = ("C17",)
-    cases = SHAPES
+    cases = SHAPES + tuple("cased:" + s for s in ("P", "SP", "PS", "SPS", "PWP"))
     assumed = ["part lists unrolled: all shapes of <= 3 parts over text / wildcard / placeholder with symbolic contents; two replacement values per placeholder",
                "replacement values are non-empty texts"]
 
     def args(self, I, case):
-        me, toks = mk_concrete_string(I, case)
+        cased = case.startswith("cased:")
+        me, toks = mk_concrete_string(I, case.split(":")[-1])
+        if cased:            # a case-sensitive string: every result is case-sensitive too
+            me = SObj(I.E.index.lookup("sigma.types:SigmaCasedString"), dict(me.fields))
 
         def cb(I2, a, k):
             p = a[0]
@@ -111,6 +114,7 @@ class ReplacePlaceholders(Contract):
             for j, (got, w) in enumerate(zip(r, want)):
                 c.require(ops.mk_bool_term(toks_equal(tokens_of(I, got), w)), f"result {j} == prefix + replacement + expanded suffix (combination order: first placeholder outermost)")
                 c.require(not any(t[0] == "P" for t in tokens_of(I, got)), f"result {j} contains no placeholder that the callback replaced")
+                c.require(isinstance(got, SObj) and getattr(got.cls, "name", None) == getattr(inp["self"].cls, "name", None), f"result {j} has the class of the string (a case-sensitive string stays case-sensitive)")
 
     def frame_ok(self, I, inp, obj, name):
         return obj is not inp["self"]
